@@ -792,6 +792,9 @@ func (y *Sym) Template() string {
 }
 
 func (y *Sym) String() string {
+	if y == nil {
+		return "<none>"
+	}
 	switch y.Op {
 	case "lit":
 		return strconv.Quote(y.Lit)
